@@ -161,7 +161,7 @@ impl SyncClient for InProcClient {
     async fn fetch_account(&self) -> Result<CreateSet, Self::Error> {
         let reader = self.backend.read().await;
         let account: CreateSet =
-            reader.fetch_account(&self.account_id).await.map_err(perr)?;
+            reader.fetch_account(&self.account_id).await.map_err(|e| perr(format!("[server fetch_account] {e}")))?;
         let bytes = account.encode().await?;
         tap(&bytes);
         Ok(CreateSet::decode(bytes::Bytes::from(bytes)).await?)
@@ -176,7 +176,7 @@ impl SyncClient for InProcClient {
         self.pass("status").await;
         let account = self.server_account().await?;
         let account = account.read().await;
-        let status = account.sync_status().await.map_err(perr)?;
+        let status = account.sync_status().await.map_err(|e| perr(format!("[server sync_status] {e}")))?;
         self.served("status");
         let bytes = status.encode().await?;
         tap(&bytes);
@@ -196,7 +196,7 @@ impl SyncClient for InProcClient {
                 &mut *writer,
             )
             .await
-            .map_err(perr)?
+            .map_err(|e| perr(format!("[server sync] {e}")))?
         };
         self.served("sync");
         let bytes = packet.encode().await?;
@@ -217,7 +217,7 @@ impl SyncClient for InProcClient {
         let response =
             server_helpers::event_scan::<_, sos_server::Error>(&req, &*reader)
                 .await
-                .map_err(perr)?;
+                .map_err(|e| perr(format!("[server scan] {e}")))?;
         self.served("scan");
         let bytes = response.encode().await?;
         tap(&bytes);
@@ -235,7 +235,7 @@ impl SyncClient for InProcClient {
         let response =
             server_helpers::event_diff::<_, sos_server::Error>(&req, &*reader)
                 .await
-                .map_err(perr)?;
+                .map_err(|e| perr(format!("[server diff] {e}")))?;
         self.served("diff");
         let bytes = response.encode().await?;
         tap(&bytes);
@@ -252,7 +252,7 @@ impl SyncClient for InProcClient {
             let mut writer = account.write().await;
             server_helpers::event_patch::<_, sos_server::Error>(req, &mut *writer)
                 .await
-                .map_err(perr)?
+                .map_err(|e| perr(format!("[server patch] {e}")))?
         };
         self.served("patch");
         let bytes = response.encode().await?;
@@ -1275,5 +1275,350 @@ pub async fn run_concurrent_path(
     if !failed {
         let _ = std::fs::remove_dir_all(&dir);
     }
+    Ok(())
+}
+
+// ---------------------------------------------------------------------------
+// MultiSync.tla: every event log of the account (C04)
+
+/// (log key -> (root, length)) of one replica; absent folders are missing.
+fn status_map(
+    st: &SyncStatus,
+    default_folder: &VaultId,
+    made: &BTreeMap<String, VaultId>,
+) -> BTreeMap<String, (String, usize)> {
+    let mut m = BTreeMap::new();
+    m.insert("identity".to_string(), (st.identity.1.root.to_string(), st.identity.1.length));
+    m.insert("account".to_string(), (st.account.1.root.to_string(), st.account.1.length));
+    m.insert("device".to_string(), (st.device.1.root.to_string(), st.device.1.length));
+    match &st.files {
+        Some(f) => m.insert("files".to_string(), (f.1.root.to_string(), f.1.length)),
+        None => m.insert("files".to_string(), ("-".to_string(), 0)),
+    };
+    if let Some(f) = st.folders.get(default_folder) {
+        m.insert("folder:default".to_string(), (f.1.root.to_string(), f.1.length));
+    }
+    for (dev, id) in made {
+        if let Some(f) = st.folders.get(id) {
+            m.insert(format!("folder:{dev}"), (f.1.root.to_string(), f.1.length));
+        }
+    }
+    m
+}
+
+pub async fn run_multi_path(idx: usize, hist: &Value, scratch: &Path, out: &mut Summary, known: &[String], prop: &str) -> Result<()> {
+    use sos_account::FolderCreate;
+    use sos_core::device::TrustedDevice;
+    use sos_core::events::DeviceEvent;
+    let dir = scratch.join(format!("multi_{idx}"));
+    let _ = std::fs::remove_dir_all(&dir);
+    std::fs::create_dir_all(&dir)?;
+    let (cb, sb): (&'static str, &str) = match idx % 4 {
+        0 => ("fs", "fs"),
+        1 => ("db", "db"),
+        2 => ("fs", "db"),
+        _ => ("db", "fs"),
+    };
+    let names = vec!["a".to_string(), "b".to_string()];
+    let world = SyncWorld::new(&dir, &names, cb, sb).await?;
+    let inputs = dir.join("inputs");
+    std::fs::create_dir_all(&inputs)?;
+    let mut made: BTreeMap<String, VaultId> = BTreeMap::new();
+    let mut counter = 0u32;
+    out.evaluated += 1;
+    let replica_names = ["a", "b", "srv"];
+    let snapshot = |sts: &Vec<(String, SyncStatus)>, made: &BTreeMap<String, VaultId>| -> BTreeMap<String, BTreeMap<String, (String, usize)>> {
+        sts.iter()
+            .map(|(n, st)| {
+                (if n == "server" { "srv".to_string() } else { n.clone() }, status_map(st, &world.folder, made))
+            })
+            .collect()
+    };
+    let mut prev = snapshot(&world.statuses().await?, &made);
+    let initial = prev.clone();
+    // events appended by edits, per log (length deltas on the editing device)
+    let mut appended: BTreeMap<String, i64> = BTreeMap::new();
+    let check_c04 = prop != "C05";
+    let check_c05 = prop != "C04";
+    let steps = hist.as_array().cloned().unwrap_or_default();
+    let mut prev_model: Option<Value> = None;
+    for (n, step) in steps.iter().enumerate() {
+        out.steps += 1;
+        let op = &step["op"];
+        let kind = op["op"].as_str().unwrap_or("");
+        let fail = |out: &mut Summary, what: String| {
+            if !check_c04 {
+                return;
+            }
+            out.violation(
+                format!("{cb} clients / {sb} server, step {n} {op}: {what}"),
+                json!({"case": hist, "idx": idx, "step": n}),
+            );
+        };
+        match kind {
+            "edit" => {
+                let d = op["d"].as_str().unwrap_or("");
+                let i = world.device(d)?;
+                counter += 1;
+                if std::env::var("VERIF_MULTI_CLOCK").is_ok() {
+                    sos_core::verif_clock::set(Some(base_time() + time::Duration::seconds(counter as i64 * 10)));
+                }
+                let mut account = world.devices[i].account.lock().await;
+                match op["kind"].as_str().unwrap_or("") {
+                    "secret" => {
+                        let (meta, secret) = values::value(if counter % 2 == 0 { "v2" } else { "v3" });
+                        account.create_secret(meta, secret, (&world.folder).into()).await?;
+                    }
+                    "rename" => {
+                        account.rename_folder(&world.folder, format!("n{counter}")).await?;
+                    }
+                    "trust" => {
+                        let key = sos_login::device::DeviceSigner::random().public_key();
+                        account
+                            .patch_devices_unchecked(&[DeviceEvent::Trust(TrustedDevice::new(key, None, None))])
+                            .await?;
+                    }
+                    "file" => {
+                        let path = inputs.join(format!("file_{d}_{counter}.txt"));
+                        std::fs::write(&path, format!("file body {d} {counter}").repeat(50))?;
+                        let secret: sos_vault::secret::Secret = path.try_into()?;
+                        let meta = sos_vault::secret::SecretMeta::new(format!("file {counter}"), secret.kind());
+                        account.create_secret(meta, secret, (&world.folder).into()).await?;
+                    }
+                    "mkfolder" => {
+                        let FolderCreate { folder, .. } = account
+                            .create_folder(sos_client_storage::NewFolderOptions::new(format!("folder of {d}")))
+                            .await?;
+                        made.insert(d.to_string(), *folder.id());
+                    }
+                    "rmfolder" => {
+                        let id = *made.get(d).ok_or_else(|| anyhow!("device {d} made no folder"))?;
+                        account.delete_folder(&id).await?;
+                    }
+                    other => return Err(anyhow!("unknown edit kind {other}")),
+                }
+            }
+            "sync" => {
+                let d = op["d"].as_str().unwrap_or("");
+                let i = world.device(d)?;
+                let (res, _route) = world.sync(i).await;
+                if res != "Ok" && std::env::var("VERIF_DEBUG").is_ok() {
+                    use sos_sync::StorageEventLogs;
+                    let account = world.devices[i].account.lock().await;
+                    let log = account.account_log().await?;
+                    let log = log.read().await;
+                    for r in records_of(&*log).await? {
+                        eprintln!("  {d} account log: {} {:?}", r.commit(), r.decode_event::<sos_core::events::AccountEvent>().await.map(|e| format!("{e:?}").chars().take(40).collect::<String>()));
+                    }
+                    let f = account.folder(&world.folder).await?;
+                    let fl = f.event_log();
+                    let fl = fl.read().await;
+                    for r in records_of(&*fl).await? {
+                        eprintln!("  {d} default folder log: {}", r.commit());
+                    }
+                    drop(fl);
+                    {
+                        let il = account.identity_log().await?;
+                        let il = il.read().await;
+                        for r in records_of(&*il).await? {
+                            eprintln!("  {d} identity log: {}", r.commit());
+                        }
+                        let dl = account.device_log().await?;
+                        let dl = dl.read().await;
+                        for r in records_of(&*dl).await? {
+                            eprintln!("  {d} device log: {}", r.commit());
+                        }
+                        for (dev, id) in &made {
+                            if let Ok(f) = account.folder(id).await {
+                                let fl = f.event_log();
+                                let fl = fl.read().await;
+                                for r in records_of(&*fl).await? {
+                                    eprintln!("  {d} folder-of-{dev} log: {}", r.commit());
+                                }
+                            }
+                        }
+                    }
+                    drop(log);
+                    drop(account);
+                    let reader = world.server.read().await;
+                    let accounts = reader.accounts();
+                    let reader = accounts.read().await;
+                    let sa = reader.get(&world.account_id).unwrap();
+                    let sa = sa.read().await;
+                    let log = sa.account_log().await.map_err(|e| anyhow!("{e:?}"))?;
+                    let log = log.read().await;
+                    for r in records_of(&*log).await? {
+                        eprintln!("  srv account log: {} {:?}", r.commit(), r.decode_event::<sos_core::events::AccountEvent>().await.map(|e| format!("{e:?}").chars().take(40).collect::<String>()));
+                    }
+                    let fl = sa.folder_log(&world.folder).await.map_err(|e| anyhow!("{e:?}"))?;
+                    let fl = fl.read().await;
+                    for r in records_of(&*fl).await? {
+                        eprintln!("  srv default folder log: {}", r.commit());
+                    }
+                }
+                if res != "Ok" {
+                    fail(out, format!("the sync call did not succeed: {res}"));
+                } else {
+                    // SuccessMeansEqual
+                    let sts = world.statuses().await?;
+                    let dev = &sts.iter().find(|(n, _)| n == d).unwrap().1;
+                    let srv = &sts.iter().find(|(n, _)| n == "server").unwrap().1;
+                    if dev != srv {
+                        let a = status_map(dev, &world.folder, &made);
+                        let b = status_map(srv, &world.folder, &made);
+                        let diff: Vec<String> = a
+                            .keys()
+                            .chain(b.keys())
+                            .filter(|k| a.get(*k) != b.get(*k))
+                            .cloned()
+                            .collect::<std::collections::BTreeSet<_>>()
+                            .into_iter()
+                            .collect();
+                        let only_device = diff.iter().all(|k| k == "device");
+                        if only_device && step["device_differs"] == true && known.iter().any(|k| k == "DeviceLogNoMerge") {
+                            out.known("DeviceLogNoMerge", format!("sync of {d} reported success, device logs differ"));
+                        } else {
+                        fail(out, format!(
+                            "the sync of {d} reported success but its status differs from the server's in {diff:?} (device {:?} / server {:?})",
+                            diff.iter().map(|k| a.get(k).map(|x| x.1)).collect::<Vec<_>>(),
+                            diff.iter().map(|k| b.get(k).map(|x| x.1)).collect::<Vec<_>>()
+                        ));
+                        }
+                    }
+                }
+            }
+            "quiesce" => {}
+            other => return Err(anyhow!("unknown step {other}")),
+        }
+        // conformance: which (replica, log) changed, appeared or disappeared
+        let now = snapshot(&world.statuses().await?, &made);
+        if kind == "edit" {
+            let d = op["d"].as_str().unwrap_or("");
+            if let (Some(a), Some(b)) = (prev.get(d), now.get(d)) {
+                for (k, (_, len)) in b {
+                    let before = a.get(k).map(|x| x.1 as i64).unwrap_or(0);
+                    *appended.entry(k.clone()).or_insert(0) += *len as i64 - before;
+                }
+            }
+        }
+        let model_now = &step["lens"];
+        if let Some(pm) = &prev_model {
+            for r in replica_names {
+                let keys: std::collections::BTreeSet<String> = model_now[r]
+                    .as_object()
+                    .map(|o| o.keys().cloned().collect())
+                    .unwrap_or_default();
+                for k in keys {
+                    let m_changed = model_now[r][&k] != pm[r][&k];
+                    let m_absent = model_now[r][&k] == json!([999]);
+                    let real_prev = prev.get(r).and_then(|m| m.get(&k));
+                    let real_now = now.get(r).and_then(|m| m.get(&k));
+                    let r_changed = real_prev != real_now;
+                    let r_absent = real_now.is_none();
+                    if m_changed != r_changed || m_absent != r_absent {
+                        out.count("change_pattern_mismatch", 1);
+                        if out.mismatches.len() < 20 {
+                            out.mismatches.push(json!({"step": n, "op": op, "replica": r, "log": k,
+                                "model_changed": m_changed, "real_changed": r_changed,
+                                "model_absent": m_absent, "real_absent": r_absent,
+                                "real_len": real_now.map(|x| x.1), "backends": format!("{cb}/{sb}")}));
+                        }
+                    } else {
+                        out.count("change_pattern_match", 1);
+                    }
+                }
+            }
+        }
+        prev_model = Some(model_now.clone());
+        prev = now;
+    }
+    // NoLoss / NoDup at the level of whole logs (C05): the converged log holds
+    // exactly the events the edits appended
+    if check_c05 {
+        if let Some(srv_now) = prev.get("srv") {
+            for (k, (_, len)) in srv_now {
+                let init = initial.get("srv").and_then(|m| m.get(k)).map(|x| x.1 as i64).unwrap_or(0);
+                let want = init + appended.get(k).copied().unwrap_or(0);
+                if *len as i64 != want {
+                    let lossy = steps.last().map(|s| s["files_lossy"] == true).unwrap_or(false);
+                    let what = format!(
+                        "{cb} clients / {sb} server: after convergence the {k} log holds {len} events; the edits appended {} to the initial {init} ({})",
+                        appended.get(k).copied().unwrap_or(0),
+                        if (*len as i64) < want { "events were lost" } else { "events were duplicated" }
+                    );
+                    let device_stuck = steps.last().map(|s| s["device_differs"] == true).unwrap_or(false);
+                    if k == "files" && (*len as i64) < want && lossy && known.iter().any(|x| x == "FilesNoAncestorFetch") {
+                        out.known("FilesNoAncestorFetch", what);
+                    } else if k == "device" && (*len as i64) < want && device_stuck && known.iter().any(|x| x == "DeviceLogNoMerge") {
+                        // the device logs never merged: the server's lacks the other side's events
+                        out.known("DeviceLogNoMerge", what);
+                    } else {
+                        out.violation(what, json!({"case": hist, "idx": idx}));
+                    }
+                }
+            }
+        }
+    }
+    if !check_c04 {
+        for d in &world.devices {
+            let mut account = d.account.lock().await;
+            let _ = tokio::time::timeout(std::time::Duration::from_secs(10), account.sign_out()).await;
+        }
+        out.nontrivial_keys.push(
+            steps.iter().map(|s| format!("{}{}", s["op"]["op"].as_str().unwrap_or(""), s["op"]["kind"].as_str().unwrap_or(""))).collect::<Vec<_>>().join(">"),
+        );
+        drop(world);
+        let _ = std::fs::remove_dir_all(&dir);
+        return Ok(());
+    }
+    // QuiescentConverged
+    let sts = world.statuses().await?;
+    let srv = sts.iter().find(|(n, _)| n == "server").unwrap().1.clone();
+    for (name, st) in &sts {
+        if name != "server" && *st != srv {
+            let a = status_map(st, &world.folder, &made);
+            let b = status_map(&srv, &world.folder, &made);
+            let diff: Vec<String> = a.keys().chain(b.keys()).filter(|k| a.get(*k) != b.get(*k)).cloned()
+                .collect::<std::collections::BTreeSet<_>>().into_iter().collect();
+            let final_differs = steps.last().map(|s| s["device_differs"] == true).unwrap_or(false);
+            if diff.iter().all(|k| k == "device") && final_differs && known.iter().any(|k| k == "DeviceLogNoMerge") {
+                out.known("DeviceLogNoMerge", format!("after quiescence device {name} and the server differ in the device log"));
+                continue;
+            }
+            out.violation(
+                format!("{cb} clients / {sb} server: after quiescence and {} sync rounds device {name} and the server differ in {diff:?}",
+                    steps.iter().filter(|s| s["op"]["op"] == "sync").count()),
+                json!({"case": hist, "idx": idx}),
+            );
+        }
+    }
+    // the devices serve the same folders
+    let mut served = Vec::new();
+    for d in &world.devices {
+        let mut account = d.account.lock().await;
+        served.push(crate::archive_world::account_snapshot(&mut account).await?);
+    }
+    if served.len() == 2 && served[0]["attachments"]["named_by_file_log"] != served[1]["attachments"]["named_by_file_log"] {
+        out.violation(format!("{cb}/{sb}: the devices' file logs name different files after convergence"), json!({"case": hist, "idx": idx}));
+    }
+    let strip = |v: &Value| { let mut v = v.clone(); if let Some(o) = v.as_object_mut() { o.remove("attachments"); } v };
+    if served.len() == 2 && strip(&served[0]) != strip(&served[1]) {
+        out.violation(
+            format!("{cb}/{sb}: the devices serve different folders after convergence: a={} b={}", strip(&served[0]), strip(&served[1])),
+            json!({"case": hist, "idx": idx}),
+        );
+    }
+    out.nontrivial_keys.push(
+        steps.iter().map(|s| format!("{}{}", s["op"]["op"].as_str().unwrap_or(""), s["op"]["kind"].as_str().unwrap_or(""))).collect::<Vec<_>>().join(">"),
+    );
+    if out.samples.len() < 3 {
+        out.sample(json!(steps.iter().map(|s| s["op"].clone()).collect::<Vec<_>>()));
+    }
+    for d in &world.devices {
+        let mut account = d.account.lock().await;
+        let _ = tokio::time::timeout(std::time::Duration::from_secs(10), account.sign_out()).await;
+    }
+    drop(world);
+    let _ = std::fs::remove_dir_all(&dir);
     Ok(())
 }
